@@ -48,6 +48,9 @@ type Loc struct {
 	Idx  string // 'S' only
 	Path string // leaf path prefix inside the container
 	T    types.Type
+	// Nullable: the pointer this location stands for may be nil (Ref == 0): the merge of `nil` with interior pointers
+	// of one shape at a phi. A plain interior pointer (&x.f, &a[i]) is never nil.
+	Nullable bool
 }
 
 type Leaf struct {
